@@ -44,8 +44,7 @@ loop_invariant(f"{H}::halton", 2, over="(i > 0).any()", var="step",
 # ------------------------------------------------------------------------------------------------ HaltonSampler
 klass("SearchSpace", fields={"_parameters_bounds": "arr2[real]", "_parameters_precision": "arr1[real]",
                              "_param_grid": "seq[seq[real]]", "_space_size": "int"})
-klass("_CachedPrimesCalculator", fields={})
-klass("HaltonSampler", fields={"_sequence_index": "int", "_prime_number_generator": "opaque:_CachedPrimesCalculator",
+klass("HaltonSampler", fields={"_sequence_index": "int", "_prime_number_generator": "obj:_CachedPrimesCalculator",
                                "batch_size": "pos", "max_deduplication_passes": "nat"},
       invariant=["self._sequence_index >= 0"])
 
@@ -57,11 +56,32 @@ _SPACE_OK = ["search_space.parameters_bounds.shape[0] == 2 and search_space.para
              "implies(0 <= j and j <= k and k < len(search_space.param_grid[c]), "
              "search_space.param_grid[c][j] <= search_space.param_grid[c][k])))"]
 
-contract(f"{H}::_CachedPrimesCalculator.get_n_primes", trusted=True, params={"n": "int"}, returns="arr1[int]",
-         requires=["n >= 1"], props=["C13"],
-         ensures=["len(result) == n", "forall(range(0, n), lambda c: result[c] == prime(c))"], modifies=[],
-         notes="ASSUMED: the cached unbounded sieve returns the first n primes (stand-in: first 2000 values against "
-               "trial division, any call order)")
+# the cache of primes: verified against an ABSTRACT unbounded sieve (`_PrimesIterator.__next__` returns, at its k-th
+# call, the k-th prime after 2 - assumed; `_count` is a specification-only field counting the calls)
+klass("_PrimesIterator", fields={"_count": "int"})
+klass("_CachedPrimesCalculator", fields={"_primes_iterator": "obj:_PrimesIterator", "_cached_primes": "list[int]"},
+      invariant=["len(self._cached_primes) >= 1",
+                 "forall(range(0, len(self._cached_primes)), lambda c: self._cached_primes[c] == prime(c))",
+                 "self._primes_iterator._count == len(self._cached_primes) - 1"])
+contract(f"{H}::_PrimesIterator.__init__", abstract=True, params={}, ensures=["self._count == 0"], modifies=["self.*"],
+         props=["C13"], notes="ASSUMED: a fresh sieve has produced no prime yet (specification-only counter)")
+contract(f"{H}::_PrimesIterator.__next__", abstract=True, params={}, returns="int", props=["C13"],
+         ensures=["result == prime(old(self._count) + 1)", "self._count == old(self._count) + 1"],
+         modifies=["self._count"],
+         notes="ASSUMED: the unbounded sieve of Eratosthenes yields 3, 5, 7, ... - the (k+1)-th prime at its k-th call "
+               "(stand-in C13/primes: first 2000 values against trial division, any call order)")
+contract(f"{H}::_CachedPrimesCalculator.__init__", params={}, ensures=[], modifies=["self.*"], props=["C13"])
+contract(f"{H}::_CachedPrimesCalculator.get_n_primes", params={"n": "int"}, returns="arr1[int]",
+         raises=[{"exc": "ValueError", "when": "not (n >= 1)"}], props=["C13"],
+         ensures=["len(result) == n", "forall(range(0, n), lambda c: result[c] == prime(c))"],
+         modifies=["self._cached_primes[*]", "self._primes_iterator._count"],
+         notes="the caching logic is verified; the primes themselves come from the assumed sieve contract")
+loop_invariant(f"{H}::_CachedPrimesCalculator.get_n_primes", "extend1", over="range(_ext_k)", var="j",
+               inv=["len(self._cached_primes) == entry(len(self._cached_primes)) + j",
+                    "forall(range(0, len(self._cached_primes)), lambda c: self._cached_primes[c] == prime(c))",
+                    "self._primes_iterator._count == len(self._cached_primes) - 1",
+                    "_ext_list is self._cached_primes and _ext_it is self._primes_iterator"],
+               props=["C13"])
 
 contract(f"{H}::HaltonSampler._reset_sequence_index", params={}, props=["C13", "C01"],
          ensures=["20 <= self._sequence_index and self._sequence_index < 2**16",
